@@ -64,6 +64,9 @@ pub struct OpCtx {
     pub log: StubLog,
 }
 
+/// callbacks that found no operation context on their thread
+pub static NOCTX_CALLBACKS: std::sync::atomic::AtomicU64 = std::sync::atomic::AtomicU64::new(0);
+
 thread_local! {
     pub static OPCTX: RefCell<Option<OpCtx>> = const { RefCell::new(None) };
     pub static BUILDLOG: RefCell<BuildLog> = RefCell::new(BuildLog::default());
@@ -136,7 +139,10 @@ enum Decision {
 fn on_callback(e: &Expect, target_shape: &[usize], xb: u64, yb: u64) -> Decision {
     OPCTX.with(|c| {
         let mut c = c.borrow_mut();
-        let Some(ctx) = c.as_mut() else { return Decision::NoCtx };
+        let Some(ctx) = c.as_mut() else {
+            NOCTX_CALLBACKS.fetch_add(1, std::sync::atomic::Ordering::Relaxed);
+            return Decision::NoCtx;
+        };
         let k = ctx.log.calls as usize;
         ctx.log.calls += 1;
         if target_shape != &e.trailing[..] {
